@@ -32,6 +32,17 @@ class Scripted(BaseAdapter):
         if isinstance(r, BaseException):
             raise r
         status, reason, headers, body = r
+        if isinstance(body, BodyFault):
+            # the status line and the headers arrived; reading the body fails (urllib3 raises while streaming)
+            resp = requests.Response()
+            resp.status_code = status
+            resp.reason = reason
+            resp.headers = CaseInsensitiveDict(headers)
+            resp.raw = body
+            resp.url = request.url
+            resp.request = request
+            resp.encoding = requests.utils.get_encoding_from_headers(resp.headers)
+            return resp
         resp = requests.Response()
         resp.status_code = status
         resp.reason = reason
@@ -47,6 +58,40 @@ class Scripted(BaseAdapter):
 
     def close(self):
         pass
+
+
+class BodyFault:
+    """a urllib3-like raw response whose body cannot be read: `stream()` yields the first bytes, then raises"""
+    version = 11
+
+    def __init__(self, kind, first=b''):
+        self.kind, self.first = kind, first
+
+    def exc(self):
+        from requests.packages import urllib3
+        ux = urllib3.exceptions
+        return {'protocol': ux.ProtocolError('Connection broken: IncompleteRead(10 bytes read, 90 more expected)'),
+                'decode': ux.DecodeError('Received response with content-encoding: gzip, but failed to decode it.'),
+                'readtimeout': ux.ReadTimeoutError(None, 'u', 'Read timed out.'),
+                'ssl': ux.SSLError('decryption failed'),
+                'incomplete': ux.IncompleteRead(10, 90)}[self.kind]
+
+    def stream(self, chunk_size=1, decode_content=True):
+        if self.first:
+            yield self.first
+        raise self.exc()
+
+    def read(self, *a, **k):
+        raise self.exc()
+
+    def release_conn(self):
+        pass
+
+    def close(self):
+        pass
+
+
+BODY_FAULT_KINDS = ['protocol', 'decode', 'readtimeout', 'ssl', 'incomplete']
 
 
 def new_conn(**kw):
@@ -636,11 +681,28 @@ def default_script(meth, request):
 XML_HDR = {'Content-type': 'application/xml; charset="utf-8"'}
 
 
-def run_real(op, status, reason, headers, body, exc=None):
+def run_real(op, status, reason, headers, body, exc=None, opts=None, url=None):
     """call the operation on a fresh connection whose first request is answered with the given response.
-    Returns (outcome_json, result_or_exception, connection)"""
+    opts: connection options {'stats': bool, 'debug': bool}; url: a real server (socket fault stream) instead of the
+    scripted adapter.  Returns (outcome_json, result_or_exception, connection)"""
     import common
-    conn, ad = new_conn(use_pull_operations=None if op.pull == 'auto' else op.pull)
+    opts = opts or {}
+    kw = dict(use_pull_operations=None if op.pull == 'auto' else op.pull)
+    if opts.get('stats'):
+        kw['stats_enabled'] = True
+    if url is not None:
+        import pywbem
+        conn = pywbem.WBEMConnection(url, ('u', 'p'), default_namespace=NS, timeout=5, **kw)
+        if opts.get('debug'):
+            conn.debug = True
+        try:
+            r = op.call(conn)
+            return {'ok': True}, r, conn
+        except Exception as e:  # noqa
+            return common.exc_json(e), e, conn
+    conn, ad = new_conn(**kw)
+    if opts.get('debug'):
+        conn.debug = True
     state = {'n': 0}
 
     def script(meth, request):
@@ -821,6 +883,10 @@ SPECIAL_ATTRS = ['CODE', 'ARRAYSIZE', 'TYPE', 'PARAMTYPE', 'VALUETYPE', 'NAME', 
                  'OVERRIDABLE', 'TOSUBCLASS', 'SUPERCLASS', 'CLASSORIGIN', 'ID', 'DESCRIPTION', 'xml:lang']
 
 
+ELEMENT_LIKE_NAMES = ['IRETURNVALUE', 'ERROR', 'RETURNVALUE', 'PARAMVALUE', 'METHODRESPONSE', 'IMETHODRESPONSE', 'VALUE',
+                      'returnvalue', 'Error']
+
+
 def pool_elements(g):
     """well-formed elements of every kind (used as replacement / insertion material)"""
     import pywbem
@@ -867,7 +933,7 @@ def pool_elements(g):
         return error_elem(r.choice(ERROR_CODES),
                           r.choice([None, 'd', '']), [obj_tree(_inst(g))] if r.random() < 0.3 else [])
     if k == 18:
-        return paramvalue(r.choice(['EndOfSequence', 'EnumerationContext', 'QueryResultClass', 'P0', 'IRETURNVALUE', 'ERROR']),
+        return paramvalue(r.choice(['EndOfSequence', 'EnumerationContext', 'QueryResultClass', 'P0'] + ELEMENT_LIKE_NAMES),
                           r.choice([None, 'string', 'boolean', 'uint8', 'reference', 'bogus']),
                           r.choice([None, value('TRUE'), value('x'), obj_tree(g.klass())]))
     if k == 19:
@@ -1034,7 +1100,12 @@ def embedded_chain(n):
 BAD_UTF8 = [b'\xff', b'\xc0\xaf', b'\xed\xa0\x80', b'\xf8\x88\x80\x80\x80', b'\xe2\x82', b'\x80', b'\xc3']
 BAD_XMLCHARS = [b'\x00', b'\x01', b'\x0b', b'\x1f', b'\xef\xbf\xbe', b'\xef\xbf\xbf', b'&#0;', b'&#x1;', b'&#xD800;', b'&bogus;',
                 b'<!--', b'<![CDATA[', b']]>', b'<?pi', b'<!DOCTYPE x [<!ENTITY a "aaaa">]>', b'&', b'<', b'"']
-XML_DECLS = [b'<?xml version="1.0" encoding="utf-8" ?>\n', b'<?xml version="1.0" encoding="utf-16"?>',
+DECL_ENCODINGS = ['shift_jis', 'utf-32', 'euc-jp', 'big5', 'gb18030', 'utf-7', 'utf_16_be', 'utf-16-le', 'cp932', 'euc_kr',
+                  'iso-2022-jp', 'hz', 'idna', 'punycode', 'rot13', 'hex', 'base64', 'zlib', 'undefined', 'unicode_escape',
+                  'raw_unicode_escape', 'utf-8-sig', 'cp1252', 'cp037', 'charmap', 'mbcs', 'ascii', 'US-ASCII', 'UTF8', 'bogus',
+                  '', 'utf-8\n', 'x' * 100]
+XML_DECLS = [('<?xml version="1.0" encoding="%s"?>' % e).encode('ascii') for e in DECL_ENCODINGS] + [
+             b'<?xml version="1.0" encoding="utf-8" ?>\n', b'<?xml version="1.0" encoding="utf-16"?>',
              b'<?xml version="1.0" encoding="latin-1"?>', b'<?xml version="1.0" encoding="bogus"?>',
              b'<?xml version="2.0"?>', b'\xef\xbb\xbf', b'\xff\xfe', b'\n<?xml version="1.0"?>', b'<?xml version="1.0" standalone="yes"?>',
              b'<!DOCTYPE CIM SYSTEM "http://x.invalid/cim.dtd">', b'<!DOCTYPE CIM [<!ENTITY e SYSTEM "file:///etc/passwd">]>']
@@ -1247,3 +1318,101 @@ def describe_transport_exc(e, T):
             arg = {'t': 'str', 's': cimproto.cps(e.args[0] if isinstance(e.args[0], str) else str(e.args[0]))}
         return {'lib': 'requests', 'kind': kind, 'arg': arg}
     return {'lib': 'urllib3', 'e': u3(e)}
+
+
+# ----------------------------------------------------------------------------- real-socket faults
+
+def _valid_body(meth='EnumerateInstanceNames'):
+    return ser(imethod_rsp(meth, [iret([])])).encode('utf-8')
+
+
+def socket_faults():
+    """(label, raw bytes the server writes after reading the request, then it closes the connection): faults that
+    happen AFTER the status line and the headers"""
+    import gzip
+    import zlib
+    body = _valid_body()
+    H = b'HTTP/1.1 200 OK\r\nContent-Type: application/xml; charset="utf-8"\r\n'
+    gz = gzip.compress(body)
+    out = [
+        ('ok', H + b'Content-Length: %d\r\n\r\n' % len(body) + body),
+        ('gzip_ok', H + b'Content-Encoding: gzip\r\nContent-Length: %d\r\n\r\n' % len(gz) + gz),
+        ('gzip_plain_body', H + b'Content-Encoding: gzip\r\nContent-Length: %d\r\n\r\n' % len(body) + body),
+        ('deflate_garbage', H + b'Content-Encoding: deflate\r\nContent-Length: 8\r\n\r\n\x00\x01\x02\x03\x04\x05\x06\x07'),
+        ('gzip_truncated', H + b'Content-Encoding: gzip\r\nContent-Length: %d\r\n\r\n' % len(gz) + gz[:len(gz) // 2]),
+        ('short_body', H + b'Content-Length: %d\r\n\r\n' % (len(body) + 100) + body),
+        ('no_body', H + b'Content-Length: 500\r\n\r\n'),
+        ('chunked_ok', H + b'Transfer-Encoding: chunked\r\n\r\n%x\r\n' % len(body) + body + b'\r\n0\r\n\r\n'),
+        ('chunked_cut', H + b'Transfer-Encoding: chunked\r\n\r\n%x\r\n' % len(body) + body[:len(body) // 2]),
+        ('chunked_bad_size', H + b'Transfer-Encoding: chunked\r\n\r\nZZ\r\n' + body),
+        ('chunked_no_terminator', H + b'Transfer-Encoding: chunked\r\n\r\n%x\r\n' % len(body) + body + b'\r\n'),
+        ('headers_cut', b'HTTP/1.1 200 OK\r\nContent-Type: application/xml'),
+        ('status_only', b'HTTP/1.1 200 OK\r\n'),
+        ('garbage_status', b'HTP/9 xx\r\n\r\n'),
+        ('empty', b''),
+        ('deflate_raw_ok', H + b'Content-Encoding: deflate\r\nContent-Length: %d\r\n\r\n' % len(zlib.compress(body)) + zlib.compress(body)),
+        ('401_short', b'HTTP/1.1 401 Unauthorized\r\nContent-Length: 50\r\n\r\nxx'),
+        ('500_gzip_plain', b'HTTP/1.1 500 E\r\nContent-Encoding: gzip\r\nContent-Length: 3\r\n\r\nabc'),
+    ]
+    return out
+
+
+def run_socket_fault(op, raw, opts=None):
+    """serve `raw` once from a loopback socket and call the operation against it"""
+    import socket
+    import threading
+    srv = socket.socket(socket.AF_INET, socket.SOCK_STREAM)
+    srv.setsockopt(socket.SOL_SOCKET, socket.SO_REUSEADDR, 1)
+    srv.bind(('127.0.0.1', 0))
+    srv.listen(4)
+    srv.settimeout(10)
+    port = srv.getsockname()[1]
+    stop = {'n': 0}
+
+    def serve():
+        while stop['n'] < 6:
+            stop['n'] += 1
+            try:
+                c, _ = srv.accept()
+            except OSError:
+                return
+            try:
+                c.settimeout(3)
+                data = b''
+                while b'\r\n\r\n' not in data:
+                    chunk = c.recv(65536)
+                    if not chunk:
+                        break
+                    data += chunk
+                head, _, rest = data.partition(b'\r\n\r\n')
+                n = 0
+                for line in head.split(b'\r\n'):
+                    if line.lower().startswith(b'content-length:'):
+                        n = int(line.split(b':')[1])
+                while len(rest) < n:
+                    chunk = c.recv(65536)
+                    if not chunk:
+                        break
+                    rest += chunk
+                if stop['n'] == 1:
+                    c.sendall(raw)
+                else:
+                    b = _valid_body('CloseEnumeration')
+                    c.sendall(b'HTTP/1.1 200 OK\r\nContent-Type: application/xml\r\nContent-Length: %d\r\n\r\n' % len(b) + b)
+            except OSError:
+                pass
+            finally:
+                try:
+                    c.close()
+                except OSError:
+                    pass
+    th = threading.Thread(target=serve, daemon=True)
+    th.start()
+    try:
+        return run_real(op, 0, '', {}, b'', opts=opts, url='http://127.0.0.1:%d' % port)
+    finally:
+        stop['n'] = 99
+        try:
+            srv.close()
+        except OSError:
+            pass
